@@ -99,12 +99,18 @@ def tables():
         UnDirectedEdge: {"v1side": "}|", "v2side": "|{"},
         zoo.USub: {"v1side": "{", "v2side": "}"},
     }
+    t10 = {
+        # one catch-all entry filed under `object`, the root of every hierarchy (it serves vertices and links alike),
+        # plus one nearer entry
+        object: {"type": "entity", "show_attrs": ["idx"], "title_format": "any{idx}", "v1side": "x", "v2side": "+"},
+        zoo.VSub: {"type": "class", "show_attrs": ["idx"], "title_format": "S{idx}"},
+    }
     return {"default": t0, "overrides": t1, "grandparents": t2, "userfunc": t3, "otherlinks": t4, "multi": t5, "idattr": t6,
-            "fmtspec": t7, "sametitle": t8, "crowsfoot": t9}
+            "fmtspec": t7, "sametitle": t8, "crowsfoot": t9, "catchall": t10}
 
 
 TABLE_ALLOWS_OTHER = {"default": False, "overrides": False, "grandparents": True, "userfunc": False, "otherlinks": True,
-                      "multi": False, "incremental": False, "idattr": False, "fmtspec": False, "sametitle": False, "crowsfoot": False}
+                      "multi": False, "incremental": False, "idattr": False, "fmtspec": False, "sametitle": False, "crowsfoot": False, "catchall": True}
 
 
 def nearest(cls, table):
